@@ -10,7 +10,7 @@ def make_cases(tier, seed):
     cases = []
     for i in range(n):
         r = gen.seeded(seed, 'C13', i)
-        kw = dict(direct=False, weights=dict(rotate=r.choice([10, 18, 30]), addbp=6, setactive=8), nops=r.choice([8, 25, 60]))
+        kw = dict(direct=False, weights=dict(rotate=r.choice([10, 18, 30]), addbp=6, setactive=8, edit=2), nops=r.choice([8, 25, 60]))
         if i % 5 == 0:
             kw['weights'].update(qr=5, aec=2, mm=2)       # consecutive rotations with (almost) nothing written
         if i % 7 == 0:
